@@ -397,6 +397,13 @@ func precedentCorrect(e *Equation) *Equation {
 	if e.right == nil || e.right.o == nil {
 		return e
 	}
+	switch e.o.code {
+	case match.code, search.code, userOpCode:
+		// The arguments of a function are delimited by the parenthesis and
+		// comma of the call, an operator in the second argument stays there.
+		e.right = precedentCorrect(e.right)
+		return e
+	}
 	if e.o.prec <= e.right.o.prec {
 		r := e.right
 		e.right = r.left
